@@ -127,4 +127,18 @@ def forRangeCtl {ρ : Type} : List (κ × ν) → (κ × ν → σ → Ctl ρ ×
     | (Ctl.brk, s') => (Ctl.next, s')
     | (Ctl.ret r, s') => (Ctl.ret r, s')
 
+
+/-- `for cond { body }` on the variables the body assigns: at most `fuel` iterations — `none` when the loop would go on
+after them (the refinement theorem of a method that uses this shows that its fuel suffices). `continue` = `next`;
+`break` leaves the loop; `return r` leaves the method -/
+def whileFuel {σ ρ : Type} : Nat → (σ → Bool) → (σ → Ctl ρ × σ) → σ → Option (Ctl ρ × σ)
+  | 0, cond, _, st => if cond st then none else some (Ctl.next, st)
+  | fuel + 1, cond, body, st =>
+    if cond st then
+      match body st with
+      | (Ctl.next, st') => whileFuel fuel cond body st'
+      | (Ctl.brk, st') => some (Ctl.next, st')
+      | (Ctl.ret r, st') => some (Ctl.ret r, st')
+    else some (Ctl.next, st)
+
 end Flamego.GoSem
